@@ -19,7 +19,8 @@ EXPLANATION = (
     'other" (abstract interpretation, lattice NONE<CLEAN<DIRTY, receiver-sensitive, dict-dispatch resolved). '
     'C10.b (ownership): the only writers of solver state from outside the class hierarchy are the two frozen '
     'stream-selection wrappers. Not decided: unit norms, power budget, alignment, monotone leakage (numeric).'
-    ' General rules also applied here (see DESIGN 10.5): validate-before-commit (no `raise` reachable after the object was already changed in a public mutator); a position in a filtered list is never used as a per-user index; a per-user quantity bound in one loop is never read by a later loop (C10.f).')
+    ' General rules also applied here (see DESIGN 10.5): validate-before-commit (no `raise` reachable after the object was already changed in a public mutator); a position in a filtered list is never used as a per-user index; a per-user quantity bound in one loop is never read by a later loop (C10.f).'
+    ' C10.i: energies are never sums of plain squares of (complex) arrays. C10.j: a validated array argument is stored as a private copy.')
 
 PROTECTED = {'_F', '_full_F', '_W', '_W_H', '_full_W_H', '_full_W', '_P', '_Ns'}
 FROZEN_FOREIGN = {
@@ -133,6 +134,13 @@ def _check_power_applied(ctx: Ctx) -> None:
 
 
 MUTANTS = [
+    Mutant('precoder-energy-without-modulus', BASE, 'IASolverBaseClass.set_precoders',
+           [('replace', "np.linalg.norm(full_F[k], 'fro')", 'np.sqrt(np.sum(full_F[k] ** 2))')], r'C10\.i:IASolverBaseClass\.set_precoders:plain-square'),
+    Mutant('benign-precoder-energy-with-modulus', BASE, 'IASolverBaseClass.set_precoders',
+           [('replace', "np.linalg.norm(full_F[k], 'fro')", 'np.sqrt(np.sum(np.abs(full_F[k]) ** 2))')], None, benign=True),
+    Mutant('power-vector-kept-by-reference', BASE, 'IASolverBaseClass.P@setter',
+           [('replace', 'value = np.array(value)', 'value = np.asarray(value)'), ('replace', 'self._P = np.array(value)', 'self._P = value')],
+           r'C10\.j:IASolverBaseClass\.P@setter:by-reference'),
     Mutant('full-precoder-scaled-by-the-power', BASE, 'IASolverBaseClass.full_F@getter',
            [('replace', 'self._F * np.sqrt(self.P)', 'self._F * self.P')], r'C10\.h:IASolverBaseClass\.full_F@getter:power-degree'),
     Mutant('benign-full-precoder-factors-swapped', BASE, 'IASolverBaseClass.full_F@getter',
